@@ -43,6 +43,8 @@ pub use self::flexbox::compute_flexbox_layout;
 
 #[cfg(feature = "grid")]
 pub use self::grid::compute_grid_layout;
+#[cfg(all(feature = "grid", taffy_verif))]
+pub use self::grid::verif_place_grid_items;
 
 use crate::geometry::{Line, Point, Size};
 use crate::style::{AvailableSpace, CoreStyle, Overflow};
@@ -178,6 +180,8 @@ where
     crate::verif_hooks::set_current_input(None);
     if let Some(cached_size_and_baselines) = cache_entry {
         #[cfg(taffy_verif)]
+        crate::verif_trace::hit(node, inputs, cached_size_and_baselines);
+        #[cfg(taffy_verif)]
         crate::verif_hooks::exit(node, &inputs, &cached_size_and_baselines, crate::verif_hooks::QueryKind::Hit);
         debug_log_node!(known_dimensions, inputs.parent_size, available_space, run_mode, inputs.sizing_mode);
         debug_log!("RESULT (CACHED)", dbg:cached_size_and_baselines.size);
@@ -187,7 +191,11 @@ where
 
     debug_log_node!(known_dimensions, inputs.parent_size, available_space, run_mode, inputs.sizing_mode);
 
+    #[cfg(taffy_verif)]
+    crate::verif_trace::enter(node, inputs);
     let computed_size_and_baselines = compute_uncached(tree, node, inputs);
+    #[cfg(taffy_verif)]
+    crate::verif_trace::exit(node, inputs, computed_size_and_baselines);
 
     // Cache result
     #[cfg(taffy_verif)]
